@@ -159,3 +159,64 @@ func vhC07Run(exported bool) {
 
 func VH_C07_combine()          { vhC07Run(false) }
 func VH_C07_combine_exported() { vhC07Run(true) }
+
+// VH_C07_concurrent: events keep arriving while the head task is being combined:
+// a producer appends a task to the same queue at an arbitrary moment of the
+// combining.  Afterwards every task is accounted for: it was merged (its
+// context is in the result and it left the queue) or it is still queued - a
+// late task never vanishes.
+func VH_C07_concurrent() {
+	op, q := vhNewOperator()
+	mk := func(id, hookName string) task.Task {
+		bc := bctx.BindingContext{Binding: "c-" + id}
+		bt := task.NewTask(HookRun).WithQueueName("main").WithMetadata(HookMetadata{HookName: hookName, BindingContext: []bctx.BindingContext{bc}})
+		bt.Id = id
+		return bt
+	}
+	head := mk("head", "hookA")
+	q.AddLast(head)
+	n := zz.Len("following", 0, 2)
+	var follow []task.Task
+	for i := 0; i < n; i++ {
+		hn := zz.ConcretizeStr(zz.OneOf("hook"+strconv.Itoa(i), "hookA", "hookB"))
+		t := mk("t"+strconv.Itoa(i), hn)
+		follow = append(follow, t)
+		q.AddLast(t)
+	}
+	late := mk("late", zz.ConcretizeStr(zz.OneOf("late_hook", "hookA", "hookB")))
+	producerDone := false
+	zz.Go("producer", func() {
+		q.AddLast(late)
+		producerDone = true
+	})
+	res := op.combineBindingContextForHook(op.TaskQueues, q, head, nil)
+	zz.WaitUntil(func() bool { return producerDone })
+
+	inResult := func(id string) bool {
+		if res == nil {
+			return false
+		}
+		for _, c := range res.BindingContexts {
+			if c.Binding == "c-"+id {
+				return true
+			}
+		}
+		return false
+	}
+	inQueue := func(t task.Task) bool {
+		found := false
+		q.Iterate(func(x task.Task) {
+			if x == t {
+				found = true
+			}
+		})
+		return found
+	}
+	zz.Assert(inQueue(head), "head_task_stays_queued")
+	for _, t := range append(follow, late) {
+		merged, queued := inResult(t.GetId()), inQueue(t)
+		zz.Assert(merged || queued, "task_neither_merged_nor_queued")
+		zz.Assert(!(merged && queued), "merged_task_leaves_the_queue")
+	}
+	zz.Reach("end")
+}
